@@ -9,7 +9,7 @@ use crate::{
     refspec::{limit, GenOpts, TextMode},
     rng::Rng,
     sess::{composition, expected_results, run_read_case, short, ReadCase, ReadOutcome, TRANSIENT},
-    transport::{runtime, Impl, RAct, ReadResult},
+    transport::{runtime, Impl, RAct},
 };
 
 pub const IMPLS: [Impl; 2] = [Impl::Blocking, Impl::Tokio];
@@ -238,6 +238,9 @@ pub fn run(ctx: &mut Ctx) -> (&'static str, String, bool) {
             for seg in [1usize, 3, 4, 5] {
                 let nreads = total.div_ceil(seg);
                 for at in 0..=nreads {
+                    if miri && (seg != 3 || (at as u64) % nshards != shard || *label != "4+8+4") {
+                        continue;
+                    }
                     for kind in TRANSIENT {
                         for pend in [false, true] {
                             let mut plan = vec![];
@@ -266,6 +269,9 @@ pub fn run(ctx: &mut Ctx) -> (&'static str, String, bool) {
             }
             // stream cut at every byte offset: never a fabricated packet
             for cut in 0..total {
+                if miri && ((cut as u64) % nshards != shard || *label != "4+8+4") {
+                    continue;
+                }
                 for seg in [1usize, 4, 64] {
                     let case = ReadCase { compressed: *compressed, stream: stream[..cut].to_vec(), read_plan: vec![], default_read: seg, write_plan: vec![], verify_version: false, label: format!("eof-{label}-cut{cut}-seg{seg}") };
                     let _ = run_both(&case, &mut p);
@@ -278,7 +284,7 @@ pub fn run(ctx: &mut Ctx) -> (&'static str, String, bool) {
     }
 
     // ---- long sessions: several times the 6120-byte buffer, hostile random partitions -----------
-    let n_long = if miri { 1 } else { ctx.tier.pick(48u64, 1200u64) };
+    let n_long = if miri { if shard < 4 { 1 } else { 0 } } else { ctx.tier.pick(48u64, 1200u64) };
     let results: Vec<(Part, usize, usize, usize)> = (0..n_long)
         .into_par_iter()
         .map(|i| {
@@ -325,7 +331,7 @@ pub fn run(ctx: &mut Ctx) -> (&'static str, String, bool) {
     ctx.extra("min_spare_capacity_offered_to_transport", json!(min_off));
     ctx.extra("buffer_capacity_growth_events", json!(growths));
     ctx.extra("max_buffered_bytes", json!(max_buf));
-    if min_off >= 1020 || growths == 0 {
+    if !miri && (min_off >= 1020 || growths == 0) {
         ctx.inconclusive(format!("long sessions never drove the receive buffer's spare capacity below one maximum frame (min {min_off}, growth events {growths}): the session-length half was not exercised"));
     }
     ctx.assume("the scripted transport models a TCP-like byte stream: each read returns 1..=offered of the remaining bytes, a transient error, Pending (async), or EOF");
